@@ -5,12 +5,16 @@ package static
 import (
 	"context"
 	"strconv"
+	"strings"
 	"testing"
 
 	metav1 "k8s.io/apimachinery/pkg/apis/meta/v1"
 	gatewayv1 "sigs.k8s.io/gateway-api/apis/v1"
 	"sigs.k8s.io/gateway-api/apis/v1alpha2"
 	"sigs.k8s.io/gateway-api/apis/v1alpha3"
+	"sigs.k8s.io/gateway-api/apis/v1beta1"
+
+	"github.com/nginx/nginx-gateway-fabric/internal/framework/helpers"
 
 	vu "github.com/nginx/nginx-gateway-fabric/internal/verifutil"
 )
@@ -74,23 +78,56 @@ func TestVerifC07(t *testing.T) {
 		c := vsGen(r, (i*6)/n)
 		reloadOK := !r.Chance(1, 5)
 		w := vpNewWorld(false)
-		if !reloadOK {
-			if r.Bool() {
-				w.rt.err = errVpReload
-			} else {
-				w.files.err = errVpReload
+		inject := func(ok bool) {
+			w.rt.err, w.files.err = nil, nil
+			if !ok {
+				if r.Bool() {
+					w.rt.err = errVpReload
+				} else {
+					w.files.err = errVpReload
+				}
 			}
 		}
+		inject(reloadOK)
 		evs := vpBaseEvents()
 		for _, o := range c.Objects() {
 			evs = append(evs, w.Apply(o))
 		}
 		w.Batch(evs)
+		// follow-up batches that leave the abstract state alone: endpoint changes of a Service of the state
+		// (EndpointsOnlyChange when it is referenced) or an unrelated ReferenceGrant (ClusterStateChange), each with
+		// its own apply outcome. The statuses must tell the outcome of the LAST apply attempt.
+		var follow []string
+		if r.Chance(1, 2) {
+			for k, nk := 0, 1+r.Intn(3); k < nk; k++ {
+				ok := !r.Chance(1, 3)
+				inject(ok)
+				before := len(w.files.calls)
+				kind := "endpoints"
+				if len(c.Services) > 0 && r.Chance(3, 4) {
+					sv := c.Services[r.Intn(len(c.Services))]
+					w.Batch([]interface{}{w.Apply(c01Slice(sv.NS, sv.Name, "f"+strconv.Itoa(k%2), []string{"10.7." + strconv.Itoa(k) + "." + strconv.Itoa(1+r.Intn(200))}, true, int64(k+1)))})
+				} else {
+					kind = "grant"
+					w.Batch([]interface{}{w.Apply(&v1beta1.ReferenceGrant{ObjectMeta: metav1.ObjectMeta{Namespace: "default", Name: "c07-follow", Generation: int64(k + 1)},
+						Spec: v1beta1.ReferenceGrantSpec{
+							From: []v1beta1.ReferenceGrantFrom{{Group: "gateway.networking.k8s.io", Kind: "HTTPRoute", Namespace: gatewayv1.Namespace("nowhere-" + strconv.Itoa(k))}},
+							To:   []v1beta1.ReferenceGrantTo{{Group: "", Kind: "Service", Name: helpers.GetPointer(gatewayv1.ObjectName("nothing"))}}}})})
+				}
+				attempted := len(w.files.calls) > before
+				if attempted {
+					reloadOK = ok
+				}
+				follow = append(follow, kind+":ok="+strconv.FormatBool(ok)+":attempted="+strconv.FormatBool(attempted))
+				out.Tally("follow", kind+":ok="+strconv.FormatBool(ok)+":attempted="+strconv.FormatBool(attempted))
+			}
+		}
 		rs, gs, human := vpStatusTerms(w)
 		human["cluster"] = c
 		human["reload_ok"] = reloadOK
+		human["follow_up_batches"] = follow
 		term := vu.App("Case", c.Coq(), vu.Bool(reloadOK), rs, gs)
-		out.Case(term, human, len(c.Routes) >= 2, c.Coq()+strconv.FormatBool(reloadOK))
+		out.Case(term, human, len(c.Routes) >= 2, c.Coq()+strconv.FormatBool(reloadOK)+strings.Join(follow, ","))
 		out.Tally("reload_ok", strconv.FormatBool(reloadOK))
 		out.Tally("routes", strconv.Itoa(len(c.Routes)))
 	}
